@@ -8,6 +8,13 @@ from . import core
 
 WRAP = ["-Wl,--wrap=malloc,--wrap=calloc,--wrap=realloc,--wrap=strdup,--wrap=free",
         "-no-pie", "-fno-pie", "-fno-omit-frame-pointer", "-fno-optimize-sibling-calls"]
+# zlib (and zstd) linked statically, so that their internal state (inflateInit's ~40 KB) goes
+# through the wrapped allocator and is accounted like the library's own blocks; the -u options pull
+# the members in although the archive precedes the objects on the command line
+for _lib, _syms in (("libz.a", ("inflate", "inflateInit_", "inflateEnd")),
+                    ("libzstd.a", ("ZSTD_decompress", "ZSTD_isError", "ZSTD_getErrorName"))):
+    if any(os.path.exists(os.path.join(_d, _lib)) for _d in ("/usr/lib/x86_64-linux-gnu", "/usr/lib64", "/usr/lib")):
+        WRAP += ["-Wl," + ",".join("-u," + x for x in _syms), "-l:" + _lib]
 
 HEX = re.compile(r"\b[0-9a-f]{6,}\b")
 
